@@ -41,3 +41,35 @@ pub assume_specification<'a, T: ?Sized + AsRef<std::ffi::OsStr>> [<std::path::Pa
     ensures path_view(r) == path_of::<T>(s);
 pub assume_specification [<std::path::PathBuf as PartialEq>::eq] (a: &std::path::PathBuf, b: &std::path::PathBuf) -> (r: bool)
     ensures r == (path_view(*a) == path_view(*b));
+
+// ---- E11 transparent iterator newtypes for core::str::Split / SplitN (vstd cannot describe these types) ----
+use vstd::std_specs::iter::*;
+#[verifier::external_body]
+pub struct VxSplit<'a>(core::str::Split<'a, char>);
+pub uninterp spec fn vx_split_remaining<'a>(it: &VxSplit<'a>) -> Seq<&'a str>;
+impl<'a> VxSplit<'a> {
+    // delegates to Split::next; contract = Iterator::next on the remaining pieces
+    #[verifier::external_body]
+    pub fn next(&mut self) -> (r: Option<&'a str>)
+        ensures
+            vx_split_remaining(old(self)).len() == 0 ==> r is None && vx_split_remaining(final(self)) == vx_split_remaining(old(self)),
+            vx_split_remaining(old(self)).len() > 0 ==> r == Some(vx_split_remaining(old(self))[0]) && vx_split_remaining(final(self)) == vx_split_remaining(old(self)).drop_first(),
+    { self.0.next() }
+}
+impl<'a> Iterator for VxSplit<'a> {
+    type Item = &'a str;
+    #[verifier::external_body]
+    fn next(&mut self) -> (r: Option<&'a str>) { self.0.next() }
+}
+#[verifier::external_body]
+pub struct VxSplitN<'a>(core::str::SplitN<'a, char>);
+pub uninterp spec fn vx_splitn_remaining<'a>(it: &VxSplitN<'a>) -> Seq<&'a str>;
+impl<'a> VxSplitN<'a> {
+    // delegates to SplitN::next; contract = Iterator::next on the remaining pieces
+    #[verifier::external_body]
+    pub fn next(&mut self) -> (r: Option<&'a str>)
+        ensures
+            vx_splitn_remaining(old(self)).len() == 0 ==> r is None && vx_splitn_remaining(final(self)) == vx_splitn_remaining(old(self)),
+            vx_splitn_remaining(old(self)).len() > 0 ==> r == Some(vx_splitn_remaining(old(self))[0]) && vx_splitn_remaining(final(self)) == vx_splitn_remaining(old(self)).drop_first(),
+    { self.0.next() }
+}
